@@ -31,7 +31,7 @@ def c06(tier):
 
 @reg('C08')
 def c08(tier):
-    return V.generic_pbt('C08', tier, n_quick=30000, n_thorough=1000000, floor=100, assumptions=API_ASSUME +
+    return V.generic_pbt('C08', tier, n_quick=30000, n_thorough=400000, floor=100, assumptions=API_ASSUME +
                          ['only caller-owned objects are mutated (copies of stored frames obtained through accessors are shallow by design)'])
 
 @reg('C10')
